@@ -341,7 +341,19 @@ impl StorageEngine {
             Some(stored_value) if !stored_value.is_expired() => {
                 let ttl = stored_value.metadata.expires_at
                     .map(|expires_at| expires_at.saturating_duration_since(Instant::now()));
-                Ok(Some((stored_value.value.clone(), ttl)))
+                // A sorted set is shared (Arc): cloning it hands out the live members, which a
+                // save would read later than this TTL.  Copy them now, under the lock.
+                let value = match &stored_value.value {
+                    Value::SortedSet(zset) => {
+                        let copy = SkipList::new();
+                        for (member, score) in zset.range_by_rank(0, usize::MAX).items {
+                            copy.insert(member, score);
+                        }
+                        Value::SortedSet(Arc::new(copy))
+                    }
+                    other => other.clone(),
+                };
+                Ok(Some((value, ttl)))
             }
             _ => Ok(None),
         }
